@@ -136,7 +136,7 @@ def c18_shards(tier, seed, search=False):
 
 PROPS["C18"] = dict(
     shards=c18_shards,
-    diverge=lambda l: l.startswith("DIVERGE base64"),
+    diverge=lambda l: l.startswith(("DIVERGE base64", "DIVERGE wire_", "DIVERGE cache_bytes")),
     trusted=BASE_TRUST + ["encoding/base64 and encoding/json at every hop; utf8.Valid and bytes.TrimSpace (Go standard library) define 'valid UTF-8' and 'whitespace' for the CLI policy"],
     assumptions=["standard input is a pipe or a file (the interactive terminal prompt is not covered)"],
     rule=("(i) the built setec binary run against a local server: value classes {empty, clean text, leading/trailing ASCII and Unicode space, space only, invalid UTF-8 with space, NUL, "
@@ -270,7 +270,7 @@ def concstore_shards(tier, seed, search=False, props=("C12",)):
 
 PROPS["C12"] = dict(
     race=True,
-    shards=lambda tier, seed, search=False: concstore_shards(tier, seed, search) + store_shards(tier, seed, search)[:3],
+    shards=lambda tier, seed, search=False: concstore_shards(tier, seed, search) + store_shards(tier, seed, search),
     trusted=STORE_TRUST + ["the Go race detector (sampled schedules)", "the model's atomic steps are the code's critical sections under active.Lock; requests to the service are never inside one"],
     assumptions=["partial: invariants are proved for all sequences of the model's atomic steps; non-blocking, data-race freedom and that the code's critical sections are those steps are observed, not proved"],
     rule=("3-5 reader goroutines calling handles of two declared, one looked-up and one concurrently looked-up name (and an Updater's Get) in a tight loop under the race detector while "
@@ -303,3 +303,7 @@ PROPS["C09"]["rule"] = PROPS["C09"]["rule"] + "; plus the concurrent family (a c
 _c18 = PROPS["C18"]["shards"]
 PROPS["C18"]["shards"] = lambda tier, seed, search=False: _c18(tier, seed, search) + store_shards(tier, seed, search)[:2]
 PROPS["C18"]["rule"] = PROPS["C18"]["rule"] + "; (iii) the sequential store family: slices returned by handles are kept and must never change afterwards; every cache document is read back by the model's reader"
+
+_c18b = PROPS["C18"]["shards"]
+PROPS["C18"]["shards"] = lambda tier, seed, search=False: _c18b(tier, seed, search) + http_shards(tier, seed, search)[:2]
+PROPS["C18"]["rule"] = PROPS["C18"]["rule"] + "; (iv) the http family: every 200 body and the real client's put request body are read back by the model's wire readers"
